@@ -84,7 +84,17 @@ func carriedText(h string) (string, bool) {
 	}
 	// (3) as (1), and the scheme name ends a token wherever it stands: a reader may look for the
 	// scheme name anywhere in the field and start reading parameters right behind it
-	low, ls := strings.ToLower(h), strings.ToLower(scheme)
+	// (byte-wise ASCII lower-casing: strings.ToLower re-encodes invalid UTF-8 and would shift the indices)
+	asciiLower := func(x string) string {
+		b := []byte(x)
+		for i, c := range b {
+			if c >= 'A' && c <= 'Z' {
+				b[i] = c + 'a' - 'A'
+			}
+		}
+		return string(b)
+	}
+	low, ls := asciiLower(h), asciiLower(scheme)
 	var c strings.Builder
 	for i := 0; i < len(h); {
 		if strings.HasPrefix(low[i:], ls) {
